@@ -360,6 +360,39 @@ def p1_lilim_pairing(F, r):
         r.fail("read_jobs: order", "the multi job does not list the pickup customer first and the delivery customer second: precedence is reversed or both parts are the same customer", F.loc(g, st2.get("ln")))
 
 
+DROPPING_TYPES = ("adapters::filter::", "adapters::filter_map::", "adapters::skip::", "adapters::take::", "adapters::skip_while::", "adapters::take_while::",
+                  "adapters::step_by::", "adapters::map_while::")
+
+
+def i1_init_reader_tokens(F, r):
+    """re-reading a written solution: every token of a route line and every job of the problem is visited (no element-dropping adapter on those walks)"""
+    root = "vrp_scientific::common::initial_reader::read_init_solution"
+    if root not in F.fns:
+        raise AnchorError(root)
+    seen = {}
+    for g in F.family(root):
+        fn = F.fns[g]
+        for bi, t in mir.calls(fn):
+            if not t["callee"].startswith("core::iter::traits::iterator::Iterator::") or not t["ga"]:
+                continue
+            ty = t["ga"][0]
+            for what, marks in (("route tokens", ("core::str::iter::Split",)), ("problem jobs", ("slice::iter::Iter<'_, vrp_core::models::problem::jobs::Job>",))):
+                if any(m in ty for m in marks):
+                    bad = [d.split("::")[1] for d in DROPPING_TYPES if d in ty]
+                    key = f"read_init_solution: walk over {what}"
+                    if bad:
+                        r.fail(key, f"the walk over the {what} drops elements ({', '.join(bad)}): a customer the writer listed in a route (or a job of the problem) silently "
+                               "vanishes from the re-read solution / id map", F.loc(g, t["ln"]))
+                        seen[what] = "bad"
+                    elif seen.get(what) != "bad":
+                        seen[what] = "ok"
+    for what in ("route tokens", "problem jobs"):
+        if what not in seen:
+            r.fail(f"read_init_solution: walk over {what}", f"no walk over the {what} was found", F.loc(root))
+        elif seen[what] == "ok":
+            r.ok(f"read_init_solution: walk over {what}", "complete (no element-dropping adapter)")
+
+
 def run(ctx):
     ctx.explanation = (
         "Structural faithfulness of the scientific readers: every field of the parse records (and every builder parameter) is consumed when the problem "
@@ -371,4 +404,5 @@ def run(ctx):
     ctx.run("C13-F2", "load type agreement; essential features (capacity, transport with time windows)", f2_load_types_and_features, floor=8)
     ctx.run("C13-P1", "Li&Lim pairing: relation (id, relation) for demand > 0; sub-jobs [pickup, delivery]", p1_lilim_pairing, floor=3)
     ctx.run("C13-F3", "rounding flag selects between rounded and raw Euclidean distance", f3_rounding_flag, floor=2)
+    ctx.run("C13-I1", "initial-solution reader visits every route token and every job", i1_init_reader_tokens, floor=2)
     ctx.run("C13-F4", "no lost slot writes: written Dimensions are moved on", f4_lost_slot_writes, floor=5)
